@@ -52,6 +52,7 @@ struct Rec {
     std::string pub;    // public handle fields after the call
     std::string err;    // monitor facts (empty = nothing observed)
     int be = -1;        // back end actually serving the object (init ops), -1 unknown
+    int live_slots = 0; // handles with a successful init not yet cleaned up, after this op
 };
 typedef std::vector<Rec> Transcript;
 
@@ -66,6 +67,8 @@ struct ExecHooks {
     virtual void call_post(const Op &, Rec &) {}
     // caller-owned object storage
     virtual void object(int /*kind*/, void * /*p*/, size_t /*n*/) {}
+    // after the executor has updated its own bookkeeping for the op
+    virtual void step_post(const Op &, Rec &, void * /*obj*/) {}
 };
 enum Role { ROLE_KEY, ROLE_TWEAK, ROLE_COUNTER, ROLE_DATA };
 
@@ -73,8 +76,8 @@ struct ExecOptions {
     int force_be = -1;          // -1: use the op's be= attribute
     ExecHooks *hooks = nullptr;
     bool final_cleanup = true;  // clean up objects still live at the end (not part of the transcript)
-    bool shift_align = false;   // metamorphic: move every buffer to another alignment
-    int align_delta = 0;
+    int align_delta = 0;        // metamorphic: move every buffer to another alignment
+    bool heap_buffers = false;  // every buffer is its own malloc block ending exactly at the buffer's end (for ASan)
 };
 
 class Exec {
@@ -110,8 +113,9 @@ public:
         return t;
     }
 
-    // number of slots whose handle is still live (for life-cycle checks)
     std::vector<Slot> &slot_table() { return slots; }
+    // harness-owned memory that `new.<kind> plant=1` stores into the handle fields
+    const void *planted_vtable = nullptr; void *planted_ctx = nullptr;
 
     void finalize() {
         for (Slot &s : slots) {
@@ -142,13 +146,25 @@ private:
 
     void release() {
         finalize();
+        free_heap_blocks();
         for (Slot &s : slots) if (s.mem) free(s.mem);
         slots.clear();
     }
 
     // ---- buffer placement: [GUARD][off pad][n bytes][GUARD], pad/guards carry GUARD_BYTE
+    std::vector<void *> heap_blocks;
+    void free_heap_blocks() { for (void *q : heap_blocks) free(q); heap_blocks.clear(); }
     uint8_t *place(size_t n, unsigned off) {
         off = (off + (unsigned)o.align_delta) & 63;
+        if (o.heap_buffers) {
+            // the block ends exactly where the buffer ends, so ASan sees a one-byte overrun
+            uint8_t *base = (uint8_t *)malloc(off + n ? off + n : 1);
+            if (!base) abort();
+            memset(base, GUARD_BYTE, off + n ? off + n : 1);
+            heap_blocks.push_back(base);
+            if (off + n) regions.push_back(Region{base, off + n});
+            return base + off;
+        }
         size_t need = GUARD + 64 + n + GUARD;
         need = (need + 63) & ~(size_t)63;
         if (arena_pos + need > ARENA) { fprintf(stderr, "exec: arena exhausted\n"); abort(); }
@@ -178,6 +194,7 @@ private:
     uint8_t *alias_lo = nullptr, *alias_hi = nullptr;   // output range allowed to overwrite an input
 
     void begin_call(const Op &op) {
+        free_heap_blocks();
         arena_pos = 0; regions.clear(); inputs.clear(); outs.clear(); alias_lo = alias_hi = nullptr;
         ov_base = nullptr;
         (void)op;
@@ -307,6 +324,11 @@ private:
             s.fill = (uint8_t)op.geti("fill", 0);
             if (posix_memalign((void **)&s.mem, 64, SLOT_BYTES) != 0) abort();
             memset(s.mem, s.fill, SLOT_BYTES);
+            if (op.geti("plant") && (kind_is_ctr(s.kind) || kind_is_par(s.kind))) {
+                // prior content: a handle whose vtable/ctx fields point at harness-owned canary memory
+                Skinny128CTR_t *h = (Skinny128CTR_t *)s.mem;
+                h->vtable = planted_vtable; h->ctx = planted_ctx;
+            }
             if (o.hooks) o.hooks->object(s.kind, s.mem, kind_size(s.kind));
             slots.push_back(s);
             return;
@@ -328,6 +350,8 @@ private:
         }
         check_slot_canary(s, r);
         image(s, r);
+        for (const Slot &x : slots) if (x.live) ++r.live_slots;
+        if (o.hooks) o.hooks->step_post(op, r, obj);
     }
 
     template <class KeyT, class TKeyT, int BS>
